@@ -1,7 +1,7 @@
 //@ function GrothSKC__ctor_stream
 //@ contract
 __CPROVER_requires(__CPROVER_is_fresh(self, sizeof(*self)) && __CPROVER_is_fresh(in, sizeof(*in)) && __tmcg_thrown == 0)
-__CPROVER_assigns(__CPROVER_object_whole(self), in->fail, __tmcg_thrown)
+__CPROVER_assigns(__CPROVER_object_whole(self), in->fail, __tmcg_thrown, ghost_pre_tab, ghost_pre_t)
 __CPROVER_ensures(__tmcg_thrown == 0 || __tmcg_thrown == TMCG_EXC_runtime_error || __tmcg_thrown == TMCG_EXC_invalid_argument)
 /* the argument object works with the challenge length it was given */
 __CPROVER_ensures(__tmcg_thrown == 0 ==> self->l_e == ell_e && self->l_e_nizk == ell_e * 2UL && self->com != 0)
@@ -10,7 +10,7 @@ __CPROVER_ensures(__tmcg_thrown == 0 ==> self->l_e == ell_e && self->l_e_nizk ==
 //@ function GrothVSSHE__ctor_stream
 //@ contract
 __CPROVER_requires(__CPROVER_is_fresh(self, sizeof(*self)) && IOS_IN_OK(in) && __tmcg_thrown == 0)
-__CPROVER_assigns(__CPROVER_object_whole(self), IOS_IN_ASSIGNS(in), __tmcg_thrown)
+__CPROVER_assigns(__CPROVER_object_whole(self), IOS_IN_ASSIGNS(in), __tmcg_thrown, ghost_pre_tab, ghost_pre_t)
 __CPROVER_ensures(__tmcg_thrown == 0 || __tmcg_thrown == TMCG_EXC_runtime_error || __tmcg_thrown == TMCG_EXC_invalid_argument)
 /* C03 (premise of completeness for every admissible challenge length): an instance built from a published group
  * uses the caller's challenge length in BOTH layers -- the shuffle argument itself and its inner
